@@ -36,9 +36,56 @@ def claim(pid, text, technique, note=PROOF_NOTE, level="other", explain=""):
     NOT_APPLICABLE.pop(pid, None)
 
 
-for _p in ["C01", "C02", "C03", "C04", "C08", "C10", "C11", "C12", "C13", "C14", "C18", "C20"]:
-    NOT_APPLICABLE[_p] = "check under construction in this build (contracts not yet registered); see DESIGN.md section 4"
+COMPLEX = ["prop:alldifferent", "prop:gcc", "prop:scc", "prop:no_sub_cycle", "prop:relation"]
+SIMPLE_EXACT = ["prop:and", "prop:affine_leq", "prop:affine_geq", "prop:affine_eq", "prop:count_eq", "prop:element_iv", "prop:element_lic", "prop:element_liv",
+                "prop:exactly_eq", "prop:exactly_true", "prop:lexicographic_leq", "prop:max_eq", "prop:max_leq", "prop:min_eq", "prop:min_geq"]
+BOUNDED.update({
+    "C01": ["engine:small"] + COMPLEX,
+    "C02": ["engine:small"],
+    "C03": ["engine:small"],
+    "C04": ["engine:small", "prop:gcc", "prop:alldifferent", "prop:no_sub_cycle", "prop:lexicographic_leq"],
+    "C05": COMPLEX,
+    "C06": COMPLEX,
+    "C07": ["prop:relation"],
+    "C10": ["engine:small"],
+    "C12": ["engine:small"],
+    "C13": ["engine:small"],
+    "C14": ["prop:alldifferent", "prop:gcc", "prop:relation"] + SIMPLE_EXACT,
+    "C16": COMPLEX,
+    "C17": ["engine:small"],
+})
+BOUNDED_NOTE = " Bounded stand-ins (never counted as proved): the same clauses checked at run time on the real functions over exhaustively enumerated small scopes (harness/bounded.py) for the Hall-interval/graph propagators (alldifferent, gcc, scc, relation, no_sub_cycle beyond arity 4), and small random problems under every configuration against brute force for the engine-level composition."
 
+claim("C01", "Chain of contracts: P3 on each compute_domains_X under contract; BC/shaving satisfy the ConsistencyAlg interface (BOUND only when every domain is a point, domains only shrink, lower levels untouched); "
+      "solve_one returns exactly get_solution of a BOUND state (value = shared domain + offset) and, on a fresh solver, inside the root domains; reducers and workers pass solutions through unchanged. "
+      "The composition 'every enabled constraint holds at a BOUND state' (acceptance-predicate theorem) is checked by the bounded engine suite, not yet deductively.",
+      "contract-based deductive verification + bounded engine suite", level="other")
+claim("C02", "Loop contracts of solve_one / BacktrackSolver.solve: each search resumes from a well-formed stack, the branching contract (C09) partitions, the variable heuristics return an open decision domain or -1 only when none is left, "
+      "exhaustion is reported only with an empty stack. The ghost-set invariant (disjoint cover of the remaining solutions) is checked by the bounded engine suite against brute force under all 24 configurations.",
+      "contract-based deductive verification + bounded engine suite", level="other")
+claim("C03", "Loop contracts of BacktrackSolver.optimize / optimize_and_queue (both directions): after each improving solution the solver is reset to the root, the objective view bound is set just past the incumbent (through the offset), "
+      "the incumbent stays inside the declared domain, the loop measure decreases; decrease_max / increase_min contracts; MultiprocessingSolver.optimize keeps the extremal message. Optimality w.r.t. the solution set is checked by the bounded engine suite.",
+      "contract-based deductive verification + bounded engine suite", level="other")
+claim("C04", "decreases clauses discharged for the optimisation loop and the reducers; for-loops of all functions under contract are bounded by construction; unroll-mode exhaustion for the while loops of lexicographic_leq at arities <= 6. "
+      "BC/shaving/search measures and the Hall-interval pointer loops are covered by bounded suites with a per-call watchdog.",
+      "contract-based deductive verification (decreases) + bounded suites with watchdog", level="other")
+claim("C10", "shave_bound contract (stack height restored, only the probed bound may move and only by one, it moves iff the probe's propagation pass returned INCONSISTENT, watchers of the moved bound are queued, flag rows and lower levels untouched) and "
+      "shaving_consistency_algorithm proved to satisfy the same ConsistencyAlg interface contract as plain BC (so every caller verified against the interface is verified for shaving).",
+      "contract-based deductive verification (own AST->VC generator, z3)", level="other")
+claim("C11", "MultiprocessingSolver.solve/optimize verified for an ARBITRARY well-formed message sequence (= every interleaving): never reads past the stream, consumes every message, returns at the last completion marker, yields each solution exactly once, "
+      "keeps the extremal objective (None iff no solution), final statistics are those of each worker's marker; sum_stats/max_stats; worker side: solve_and_queue/optimize_and_queue emit exactly one marker, last.",
+      "contract-based deductive verification with ghost message sequence and lemma library", level="proof")
+claim("C12", "Problem.split contract: min(k, size) >= 1 parts, contiguous, non-empty, first starts at a, last ends at b (closed-form loop invariant, nonlinear), every other row / the index and offset lists of each copy equal the original's, original unchanged (deepcopy by assumed contract).",
+      "contract-based deductive verification with environment handlers (deepcopy, append)", level="other")
+claim("C13", "Offset round trip (BC view = shared + offset, write-back subtracts it, get_solution, decrease_max/increase_min) and frame obligations of every function under contract; independence from constraint order, duplication, dummy constraints and "
+      "sharing-vs-equality rewrites checked by the bounded engine suite.",
+      "contract-based deductive verification + bounded engine suite", level="other")
+claim("C14", "P1+P2 deductively (C05); exactness (hull, inconsistency iff empty, idempotence) by the bounded propagator suites on exhaustively enumerated small scopes for all 18 listed propagators.",
+      "bounded run-time contract checks (exactness not yet deductive)", level="other")
+claim("C18", "get_message contract under an explicit environment contract: every Queue.get has a timeout; an iteration that finds the queue empty while an unfinished worker is dead leaves by raising (never loops on); the reducers track completion flags exactly.",
+      "contract-based deductive verification of a safety reformulation under an environment contract", level="other")
+for _p in ["C08", "C20"]:
+    NOT_APPLICABLE[_p] = "check under construction in this build (contracts not yet registered); see DESIGN.md section 4"
 claim("C05", "Generic propagator contract clauses P1 (contraction) and P2 (every supported tuple kept; inconsistency only when no tuple) as postconditions of each compute_domains_X, "
       "discharged by z3 from VCs generated from the real source: unbounded-arity proofs (loop invariants) for the linear and min/max/and/dummy propagators, "
       "arity-bounded proofs (unroll mode, values symbolic) for the counting, element and lexicographic propagators.",
@@ -58,3 +105,7 @@ claim("C17", "Counter clauses as loop invariants/postconditions: BC (passes +1, 
       "contract-based deductive verification with ghost call counters", level="proof")
 claim("C19", "Range obligations on every store into uint8/uint16/int16 arrays and bounds obligations on stack[top+1], stack[top+2]: discharged from the run-time guard in solve_one (IndexError) and H <= 256.",
       "contract-based deductive verification: generated range obligations", level="other")
+
+for _p in list(CLAIMED):
+    if _p in BOUNDED:
+        CLAIMED[_p]["note"] = PROOF_NOTE + BOUNDED_NOTE
